@@ -60,7 +60,10 @@ class ForwardAnalysis(Generic[T], Analysis[T], ABC):
         if _verif.ON:
             queue = _verif.sched_set(queue, "ForwardAnalysis.run")
         while len(queue) > 0:
-            bb = queue.pop()
+            # Visit in a fixed order: popping from the set would depend on the memory
+            # layout, and the order can show in diagnostics
+            bb = min(queue, key=lambda bb: bb.idx)
+            queue.remove(bb)
             preds = (
                 bb.predecessors + bb.dummy_predecessors
                 if self.include_unreachable()
@@ -102,7 +105,10 @@ class BackwardAnalysis(Generic[T], Analysis[T], ABC):
         if _verif.ON:
             queue = _verif.sched_set(queue, "BackwardAnalysis.run")
         while len(queue) > 0:
-            bb = queue.pop()
+            # Visit in a fixed order: popping from the set would depend on the memory
+            # layout, and the evidence BBs end up in diagnostics
+            bb = max(queue, key=lambda bb: bb.idx)
+            queue.remove(bb)
             succs = (
                 bb.successors + bb.dummy_successors
                 if self.include_unreachable()
